@@ -425,6 +425,18 @@ class Effects(object):
                 out.append(Site(fi, node, "call:" + node.func.attr, node.func, roots, own=own))
         return out
 
+    def property_getters(self, name: str) -> List[FuncInfo]:
+        cache = getattr(self, "_prop_cache", None)
+        if cache is None:
+            cache = self._prop_cache = {}
+            for ci in self.p.all_classes():
+                if ci.synthetic:
+                    continue
+                for nm, v in ci.attrs.items():
+                    if isinstance(v, FuncInfo) and v.kind == "property":
+                        cache.setdefault(nm, []).append(v)
+        return cache.get(name, [])
+
     def transitive_sites(self, fi: FuncInfo, depth: int = 6, _stack=()) -> List[Site]:
         """mutation sites of ``fi`` and of everything it calls, with roots
         expressed in terms of ``fi``'s own parameters / self paths"""
@@ -432,10 +444,21 @@ class Effects(object):
             return []
         ff = self.facts(fi)
         out = list(self.local_sites(fi))
+        called_funcs = {id(n.func) for n in ast.walk(fi.node) if isinstance(n, ast.Call)}
         for node in ast.walk(fi.node):
-            if not isinstance(node, ast.Call):
+            if isinstance(node, ast.Attribute) and isinstance(node.ctx, ast.Load) and id(node) not in called_funcs:
+                # reading a property of the repository runs its getter on the receiver
+                getters = self.property_getters(node.attr)
+                if not getters:
+                    continue
+                pseudo = ast.Call(func=node, args=[], keywords=[])
+                ast.copy_location(pseudo, node)
+                callees, node = getters, pseudo
+            elif isinstance(node, ast.Call):
+                callees = self.resolve_call(fi, node)
+            else:
                 continue
-            for g in self.resolve_call(fi, node):
+            for g in callees:
                 if g is fi:
                     continue
                 gf = self.facts(g)
@@ -530,6 +553,15 @@ def _is_citation_list(site: Site, root: Optional[str]) -> bool:
         if any(isinstance(c, ast.Constant) and c.value == "citation" for c in ast.walk(src)):
             return True
         for c in ast.walk(src):
+            # a class-level / module-level getter object that names the qualifier (operator.methodcaller("get", "citation", ...))
+            raw = None
+            if isinstance(c, ast.Attribute) and isinstance(c.value, ast.Name) and c.value.id in ("self", "cls") and fi.owner is not None:
+                raw = fi.owner.attrs.get(c.attr)
+            elif isinstance(c, ast.Name):
+                raw = fi.module.assigns.get(c.id)
+            if isinstance(raw, ast.AST) and any(isinstance(x, ast.Constant) and x.value == "citation" for x in ast.walk(raw)):
+                return True
+        for c in ast.walk(src):
             if isinstance(c, ast.Call) and isinstance(c.func, (ast.Name, ast.Attribute)):
                 g = None
                 if isinstance(c.func, ast.Name):
@@ -568,6 +600,9 @@ def assembly_write_set(ctx, rule_prefix: str):
                 continue
         if not hits:
             continue
+        root0, _p0 = s.path()
+        if s.fi.kind == "classmethod" and s.fi.node.args.args and root0 == s.fi.node.args.args[0].arg:
+            continue  # a store on the class object (per-class state: the persistent-state rule of C06), not on an input
         if key in seen:
             continue
         seen.add(key)
@@ -657,6 +692,8 @@ def persistent_state_rule(ctx, rule: str, scope_modules=("moclo.core._structured
             cls_like: Set[str] = set()
             if kind == "classmethod" and first:
                 cls_like.add(first)
+            if first and (fn.name in ("__new__", "__init_subclass__", "__class_getitem__") or first in ("cls", "klass", "mcs")):
+                cls_like.add(first)  # implicitly receives the class
             # type(self) / self.__class__ aliases
             for node in ast.walk(fn):
                 if isinstance(node, ast.Assign) and len(node.targets) == 1 and isinstance(node.targets[0], ast.Name):
@@ -941,6 +978,22 @@ def raise_inventory(ctx, rule: str):
         if extra:
             ok = False
             det = "the handler in is_valid does more than return False: `%s`" % re.sub(r"\s+", " ", iv.module.segment(extra[0]) or "")[:80]
+    if not handlers:
+        # with contextlib.suppress(<covering class>): <read the match>; return True  -- then return False
+        for n in iv.node.body:
+            if isinstance(n, ast.With) and len(n.items) == 1 and isinstance(n.items[0].context_expr, ast.Call) \
+                    and ast.unparse(n.items[0].context_expr.func) in ("contextlib.suppress", "suppress"):
+                covered = False
+                for t in n.items[0].context_expr.args:
+                    cls = p.resolve_expr(iv.module, t)
+                    if (isinstance(cls, ClassInfo) and p.is_subclass(inv_seq, cls)) or (
+                            isinstance(cls, Ext) and cls.dotted in ("builtins.ValueError", "builtins.Exception", "builtins.BaseException")):
+                        covered = True
+                tail = iv.node.body[iv.node.body.index(n) + 1:]
+                falls_false = len(tail) == 1 and isinstance(tail[0], ast.Return) and isinstance(tail[0].value, ast.Constant) and tail[0].value.value is False
+                ok = covered and falls_false
+                det = "is_valid suppresses %s and then %s" % ("InvalidSequence" if covered else "a class that does not cover InvalidSequence",
+                                                               "returns False" if falls_false else "does not simply return False")
     r.ob(rule + ".is-valid-handler", iv.qualname, ok, det, iv.where())
     # no is_valid override in kits that bypasses it
     for kc in ctx.inventory:
